@@ -158,7 +158,7 @@ func runC01(c C01Case) (st Stats, err error) {
 			return nil
 		}
 		tag++
-		return tagValue(tag)
+		return tagValueP(tag)
 	}
 	if p := guard(func() {
 		s = newStackOfKind(c.Kind, c.Cap)
